@@ -67,6 +67,12 @@ Definition O7 (sq : F7) : FieldOps A7 := {|
   f_conj := fun x : A7 => x; f_re := fun x : A7 => x; f_im := fun _ : A7 => f0 : A7; f_abs := fun x : A7 => x; f_rabs := fun x : A7 => x;
   f_rsqrt := fun x : A7 => x; f_max := fun x y : A7 => if to_n x <? to_n y then y else x; f_eps := f0 : A7; f_frac := [] |}.
 Definition RA7 (sq : F7) : RootArith := FieldRA A7 A7_FieldLaws (O7 sq).
+(* the same with Cmplx::new r i := r, EPS := 0 (the convergence test is then exact: |p(x)| <= 0) *)
+Definition O7r : FieldOps A7 := {|
+  f_sqrt := fun _ : A7 => f0 : A7; f_pow := fun (z _ : A7) => z; f_polar := fun (r _ : A7) => r; f_mk := fun (r _ : A7) => r;
+  f_conj := fun x : A7 => x; f_re := fun x : A7 => x; f_im := fun _ : A7 => f0 : A7; f_abs := fun x : A7 => x; f_rabs := fun x : A7 => x;
+  f_rsqrt := fun x : A7 => x; f_max := fun x y : A7 => if to_n x <? to_n y then y else x; f_eps := f0 : A7; f_frac := [] |}.
+Definition RA7r : RootArith := FieldRA A7 A7_FieldLaws O7r.
 
 (* ---------------- float instance, recorded table ---------------- *)
 Local Open Scope float_scope.
@@ -90,6 +96,11 @@ Lemma ex_laguer_float :
   exists l, laguer (FloatRA tbl_1234) (map (fun c => @mkC AF c 0) p1234) (@mkC AF 0 0) = Ok l
             /\ lwhy l = Converged /\ liters l = 4%nat.
 Proof. eexists. split; [vm_compute; reflexivity | split; reflexivity]. Qed.
+(* the first polishing call (entry 8 - 4 + 0 of the trace) exits Converged *)
+Lemma ex_polish_float :
+  exists rs tr l, roots_f64 tbl_1234 p1234 true = Ok (rs, tr) /\
+                  nth_error tr (length tr - (length p1234 - 1) + 0) = Some l /\ lwhy l = Converged.
+Proof. do 3 eexists. split; [vm_compute; reflexivity | split; reflexivity]. Qed.
 Local Close Scope float_scope.
 
 (* ---------------- GF(7): every hypothesis of the closed-form theorems is met ---------------- *)
@@ -127,3 +138,8 @@ Lemma ex_horner7 : exists b e d f, horner3 (RA7 f0) [f1; f2; f3; f1] 3 f2 = Ok (
 Proof. do 4 eexists. reflexivity. Qed.
 Lemma ex_deflate7 : exists ad' r, deflate (RA7 f0) [f1; f2; f3; f1] 2 f2 = Ok (ad', r).
 Proof. do 2 eexists. reflexivity. Qed.
+
+(* x^4 over GF(7), no refinement: the deflation phase runs (four roots 0, every residual 0) *)
+Lemma ex_deflation7 :
+  exists tr, poly_solve RA7r [f0; f0; f0; f0; f1] false = Ok ([f0; f0; f0; f0], tr) /\ length tr = 4.
+Proof. eexists. split; [vm_compute; reflexivity | reflexivity]. Qed.
